@@ -292,6 +292,12 @@ def body_detect(ctx, case):
         if rot == 2:
             return (Wo - 1 - x, Ho - 1 - y)
         return (y, Ho - 1 - x)
+    # the library breaks ties in its left-to-right / top-to-bottom orders with the process-global RNGs, and the partition of
+    # overlapping regions follows that order: both analyses of the metamorphic comparison below start from the same RNG state
+    import random as _random
+    rng_seed = (case["H"] * 1000003 + case["W"] * 101 + len(case["ridges"])) % (2 ** 31)
+    np.random.seed(rng_seed)
+    _random.seed(rng_seed)
     with contextlib.redirect_stdout(io.StringIO()):
         res = ctx.must("detect_raises", eng.detect, orig, rot)
     p_list, b_list, h_list, t_list = res
@@ -316,6 +322,8 @@ def body_detect(ctx, case):
     # metamorphic: analysing the page in a rotated orientation == analysing the rotated page upright and mapping the result
     # back with the definition of np.rot90 (same maps, so the only difference is the library's own back-mapping): within 1 px
     if rot != 0:
+        np.random.seed(rng_seed)
+        _random.seed(rng_seed)
         with contextlib.redirect_stdout(io.StringIO()):
             up = ctx.must("detect_raises", eng.detect, np.ascontiguousarray(np.rot90(orig, k=rot)), 0)
         for name, got_list, up_list in (("baseline", b_list, up[1]), ("outline", t_list, up[3]), ("region", p_list, up[0])):
